@@ -350,10 +350,11 @@ ANCHOR_PREFIXES = ("utils/mutation.py:__new__", "utils/mutation.py:__enter__", "
 MECHANISMS = ("utils/mutation.py:__new__", "utils/mutation.py:__enter__", "utils/mutation.py:__exit__",
               "utils/mutation.py:protect_via_deepcopy", "spec_class.py:__get__", "spec_class.py:__new__",
               "spec_class.py:bootstrapper", "spec_class.py:bootstrap", "spec_class.py:build_attr_spec",
-              "spec_class.py:for_class", "spec_class.py:register_method", "methods/base.py:__get__")
+              "spec_class.py:for_class", "spec_class.py:register_method", "spec_class.py:invalidation_map",
+              "methods/base.py:__get__")
 
 
-def make_policy(rng, shape, seq_steps, hot_steps=None, n_threads=2):
+def make_policy(rng, shape, seq_steps, hot_steps=None, n_threads=2, focus=None):
     """
     Draw a schedule policy.  seq_steps: estimated number of steps of the whole run;
     hot_steps: optional list of step indices (in the sequential trace) inside anchored functions.
@@ -389,6 +390,12 @@ def make_policy(rng, shape, seq_steps, hot_steps=None, n_threads=2):
                     break
         mechs = sorted(by_mech)
         for _ in range(d):
+            if focus and focus in by_mech and rng.random() < 0.6:
+                # the run was set up around one mechanism (focus): most targets land in it
+                pool = by_mech[focus]
+                t, site, n = pool[rng.randrange(len(pool))]
+                targets.add((None if rng.random() < 0.5 else t, site, n))
+                continue
             if mechs and rng.random() < 0.35:
                 pool = by_mech[mechs[rng.randrange(len(mechs))]]
                 lines = sorted({site for _t, site, _n in pool})
